@@ -288,7 +288,55 @@ func genSync(w *world, t *trace.W, r *rng.R, maxOps int, wild bool, reuse *int) 
 	everBound := false
 	ops := r.Range(4, maxOps)
 	for k := 0; k < ops; k++ {
-		switch r.Pick(8, 22, 30, 10, 8, 6, 16) {
+		switch r.Pick(8, 22, 30, 10, 8, 6, 16, 4) {
+		case 7: // the leader process restarts: its index comes back from the kv (possibly lower), everybody reconnects
+			if wild {
+				continue
+			}
+			busy := false
+			for _, f := range fols {
+				if f.connected || f.used {
+					busy = true
+				}
+			}
+			if busy {
+				if *reuse <= 0 {
+					continue
+				}
+				*reuse--
+			}
+			if v, ok := obsField(w.do(t, "lrestart"), "lnext"); ok {
+				lnext = v
+			}
+			everBound = false
+			for i, f := range fols {
+				was := f.connected
+				f.connected, f.used = false, false
+				if was || r.Bool(1, 2) {
+					obs := w.do(t, fmt.Sprintf("connect %d %s", i, orders[r.Intn(len(orders))]))
+					if v, ok := obsField(obs, "fnext"); ok {
+						f.next = v
+					}
+					f.connected = true
+					everBound = true
+				}
+			}
+			// a change right after: its start index may lie behind the followers' index
+			for _, sp := range g.mutate(false) {
+				if v, ok := obsField(w.do(t, "put "+sp), "next"); ok {
+					lnext = v
+					for _, f := range fols {
+						if f.connected {
+							f.next = v
+						}
+					}
+				}
+			}
+			for i, f := range fols {
+				if f.connected {
+					w.do(t, fmt.Sprintf("check %d", i))
+				}
+			}
 		case 0: // new follower
 			if len(fols) < 3 {
 				fc := []int{1, 3, 10, 100, 0, 0}[r.Intn(6)]
@@ -377,8 +425,44 @@ func genSync(w *world, t *trace.W, r *rng.R, maxOps int, wild bool, reuse *int) 
 			}
 			if live >= 0 && r.Bool(1, 2) {
 				var specs []string
-				for len(specs) < 2 || (len(specs) < 4 && r.Bool(1, 2)) {
-					specs = append(specs, g.mutate(false)...)
+				if len(g.regs) > 1 && r.Bool(1, 2) {
+					// a busy region reported several times within one drained batch, its leader (and flow) changing
+					// in between: [other, x (leader a), other, x (leader b)]
+					x := g.regs[r.Intn(len(g.regs))]
+					other := func() string {
+						y := g.regs[r.Intn(len(g.regs))]
+						for y == x {
+							y = g.regs[r.Intn(len(g.regs))]
+						}
+						y.st = g.stats()
+						if y.leader < 0 && len(y.peers) > 0 {
+							y.leader = 0
+						}
+						if len(y.peers) == 0 {
+							y.peers, y.leader = g.newPeers(1), 0
+						}
+						return y.spec()
+					}
+					if len(x.peers) < 2 {
+						x.cv++
+						x.peers = append(x.peers, g.newPeers(2)...)
+					}
+					specs = append(specs, other())
+					x.leader = r.Intn(len(x.peers))
+					specs = append(specs, x.spec())
+					if r.Bool(1, 2) {
+						specs = append(specs, other())
+					}
+					x.leader = (x.leader + 1 + r.Intn(len(x.peers)-1)) % len(x.peers)
+					x.st = g.stats()
+					specs = append(specs, x.spec())
+					if r.Bool(1, 3) {
+						specs = append(specs, other())
+					}
+				} else {
+					for len(specs) < 2 || (len(specs) < 4 && r.Bool(1, 2)) {
+						specs = append(specs, g.mutate(false)...)
+					}
 				}
 				if len(specs) > 5 {
 					specs = specs[:5]
